@@ -1,48 +1,185 @@
 ------------------------------- MODULE SyncFlag -------------------------------
-(* DRAFT (round 0).  src/sync/sync_flag.rs: cnt (fired = isize::MAX, modelled as a large BIG),
-   to_wake queue; wait / wait_timeout / fire; the error path `is_unparked ? fire : set_release..`
-   is folded into "a timed-out waiter leaves a stale entry" because re-firing is idempotent. *)
-EXTENDS Integers, Sequences, FiniteSets, TLC
-CONSTANTS Waiters, Timed, Firers, BIG
-VARIABLES cnt, toWake, token, pc, result, everFired
-vars == <<cnt, toWake, token, pc, result, everFired>>
-Actors == Waiters \cup Firers
-Init == /\ cnt = 0 /\ toWake = <<>> /\ token = [w \in Waiters |-> FALSE]
-        /\ pc = [a \in Actors |-> IF a \in Firers THEN "fire.store" ELSE "wait.is_fired"]
-        /\ result = [w \in Waiters |-> "none"] /\ everFired = FALSE
+(* Literal model of src/sync/sync_flag.rs (wait / wait_timeout / fire) over the SyncBlocker
+   hand-shake.  Same conventions as Semaphore.tla: pc[a] = name of the verification point the actor
+   is stopped at; park() is the AbsBlocker with real suspension; timed waits expire through Tick
+   (virtual time jumps to the earliest pending deadline; the woken coroutine runs on the timer
+   thread); Victims can be cancelled.  `cnt` is fired when positive (fire() stores isize::MAX,
+   modelled as BIG); waits decrement it.
+   wakeup_all() is `while let Some(w) = to_wake.pop() { w.unpark(); if w.take_release() { fire() } }`:
+   the pops have no point of their own - the first happens right after the point flag.wakeup, the
+   later ones right after sb.take_release.                                                   *)
+EXTENDS Integers, FiniteSets, Sequences, TLC
+CONSTANTS Actors, Victims, Prog, Dur, BIG,
+          GiveUpPath      \* "as_written" | "undo_count"  (mutant: a giving-up waiter does cnt += 1)
+VARIABLES cnt, toWake, token, unparked, release, pc, ip, w, retTo,
+          cancelled, parked, res, deadline, now, timerHost,
+          everFired, falseRet      \* ghost: fire() has stored; a wait returned false
+vars == <<cnt, toWake, token, unparked, release, pc, ip, w, retTo, cancelled, parked, res,
+          deadline, now, timerHost, everFired, falseRet>>
+MaxOps == 3
+Blockers == Actors \X (1..MaxOps)
+Me(a) == <<a, ip[a]>>
+NoB == <<"none", 0>>
+Op(a) == Prog[a][ip[a]]
+FirstPc(op) == IF op = "fire" THEN "flag.fire.store" ELSE "flag.wait.load"
+StartPc(a) == IF Len(Prog[a]) = 0 THEN "done" ELSE FirstPc(Prog[a][1])
+Init ==
+  /\ cnt = 0 /\ toWake = <<>>
+  /\ token = [b \in Blockers |-> FALSE] /\ unparked = [b \in Blockers |-> FALSE]
+  /\ release = [b \in Blockers |-> FALSE]
+  /\ ip = [a \in Actors |-> 1] /\ pc = [a \in Actors |-> StartPc(a)]
+  /\ w = [a \in Actors |-> NoB] /\ retTo = [a \in Actors |-> "next"]
+  /\ cancelled = [a \in Actors |-> FALSE] /\ parked = [a \in Actors |-> FALSE]
+  /\ res = [a \in Actors |-> "none"] /\ deadline = [a \in Actors |-> 0] /\ now = 0
+  /\ timerHost = "none" /\ everFired = FALSE /\ falseRet = FALSE
 Goto(a, l) == pc' = [pc EXCEPT ![a] = l]
-IsFired(a) == /\ pc[a] = "wait.is_fired"
-              /\ IF cnt > 0 THEN result' = [result EXCEPT ![a] = "true"] /\ Goto(a, "done")
-                            ELSE Goto(a, "wait.push") /\ UNCHANGED result
-              /\ UNCHANGED <<cnt, toWake, token, everFired>>
-Push(a) == /\ pc[a] = "wait.push" /\ toWake' = Append(toWake, a) /\ Goto(a, "wait.dec")
-           /\ UNCHANGED <<cnt, token, result, everFired>>
-Dec(a) == /\ pc[a] = "wait.dec" /\ cnt' = cnt - 1
-          /\ Goto(a, IF cnt > 0 THEN "wake_all:wait.park" ELSE "wait.park")
-          /\ UNCHANGED <<toWake, token, result, everFired>>
-WakeAll(a) == /\ \E nxt \in {"wait.park", "done"} :
-                   /\ pc[a] = "wake_all:" \o nxt
-                   /\ IF toWake = <<>> THEN Goto(a, nxt) /\ UNCHANGED <<toWake, token>>
-                      ELSE toWake' = Tail(toWake) /\ token' = [token EXCEPT ![Head(toWake)] = TRUE] /\ UNCHANGED pc
-              /\ UNCHANGED <<cnt, result, everFired>>
-ParkOk(a) == /\ pc[a] = "wait.park" /\ token[a] /\ token' = [token EXCEPT ![a] = FALSE]
-             /\ result' = [result EXCEPT ![a] = "true"] /\ Goto(a, "done")
-             /\ UNCHANGED <<cnt, toWake, everFired>>
-ParkTimeout(a) == /\ pc[a] = "wait.park" /\ a \in Timed /\ token' = [token EXCEPT ![a] = FALSE]
-                  /\ result' = [result EXCEPT ![a] = "false"] /\ Goto(a, "done")
-                  /\ UNCHANGED <<cnt, toWake, everFired>>
-FireStore(a) == /\ pc[a] = "fire.store" /\ cnt' = BIG /\ everFired' = TRUE /\ Goto(a, "wake_all:done")
-                /\ UNCHANGED <<toWake, token, result>>
-AllOver == \A a \in Actors : pc[a] = "done"
-Next == \/ \E a \in Waiters : IsFired(a) \/ Push(a) \/ Dec(a) \/ ParkOk(a) \/ ParkTimeout(a)
-        \/ \E a \in Firers : FireStore(a)
-        \/ \E a \in Actors : WakeAll(a)
-        \/ (AllOver /\ UNCHANGED vars)
+UNCH_B == UNCHANGED <<token, unparked, release>>
+UNCH_S == UNCHANGED <<cnt, toWake>>
+UNCH_T == UNCHANGED <<deadline, now, timerHost>>
+UNCH_G == UNCHANGED <<everFired, falseRet>>
+LeaveTimer(a) == timerHost' = IF timerHost = a THEN "none" ELSE timerHost
+
+WaitLoad(a) ==
+  /\ pc[a] = "flag.wait.load"
+  /\ Goto(a, IF cnt > 0 THEN "next" ELSE "flag.wait.push")
+  /\ retTo' = [retTo EXCEPT ![a] = "next"]
+  /\ UNCHANGED <<ip, w, cancelled, parked, res>> /\ UNCH_B /\ UNCH_S /\ UNCH_T /\ UNCH_G
+WaitPush(a) ==
+  /\ pc[a] = "flag.wait.push"
+  /\ toWake' = Append(toWake, Me(a)) /\ Goto(a, "flag.wait.dec")
+  /\ UNCHANGED <<cnt, ip, w, retTo, cancelled, parked, res>> /\ UNCH_B /\ UNCH_T /\ UNCH_G
+WaitDec(a) ==
+  /\ pc[a] = "flag.wait.dec"
+  /\ cnt' = cnt - 1
+  /\ IF cnt > 0 THEN Goto(a, "flag.wakeup") /\ retTo' = [retTo EXCEPT ![a] = "sb.park"]
+                ELSE Goto(a, "sb.park") /\ UNCHANGED retTo
+  /\ UNCHANGED <<toWake, ip, w, cancelled, parked, res>> /\ UNCH_B /\ UNCH_T /\ UNCH_G
+FireStore(a) ==
+  /\ pc[a] = "flag.fire.store"
+  /\ cnt' = BIG /\ everFired' = TRUE /\ Goto(a, "flag.wakeup")
+  /\ UNCHANGED <<toWake, ip, w, retTo, cancelled, parked, res, falseRet>> /\ UNCH_B /\ UNCH_T
+\* pop the next waiter or return from wakeup_all
+PopOrReturn(a, from) ==
+  IF toWake = <<>>
+    THEN /\ Goto(a, retTo[a]) /\ UNCHANGED <<toWake, w>>
+    ELSE /\ w' = [w EXCEPT ![a] = Head(toWake)] /\ toWake' = Tail(toWake) /\ Goto(a, "sb.unpark")
+Wakeup(a) ==
+  /\ pc[a] = "flag.wakeup"
+  /\ PopOrReturn(a, "flag.wakeup")
+  /\ UNCHANGED <<cnt, ip, retTo, cancelled, parked, res>> /\ UNCH_B /\ UNCH_T /\ UNCH_G
+WakeUnpark(a) ==
+  /\ pc[a] = "sb.unpark"
+  /\ LET b == w[a]  t == b[1] IN
+       IF pc[t] = "parked" /\ parked[t] /\ Me(t) = b
+         THEN /\ parked' = [parked EXCEPT ![t] = FALSE] /\ res' = [res EXCEPT ![t] = "Ok"]
+              /\ pc' = [pc EXCEPT ![a] = "sb.set_unparked", ![t] = "sb.park.ret"]
+              /\ UNCHANGED token
+         ELSE /\ token' = [token EXCEPT ![b] = TRUE] /\ Goto(a, "sb.set_unparked")
+              /\ UNCHANGED <<parked, res>>
+  /\ UNCHANGED <<unparked, release, ip, w, retTo, cancelled>> /\ UNCH_S /\ UNCH_T /\ UNCH_G
+WakeSetUnparked(a) ==
+  /\ pc[a] = "sb.set_unparked"
+  /\ unparked' = [unparked EXCEPT ![w[a]] = TRUE] /\ Goto(a, "sb.take_release")
+  /\ UNCHANGED <<token, release, ip, w, retTo, cancelled, parked, res>> /\ UNCH_S /\ UNCH_T /\ UNCH_G
+TakeRelease(a) ==
+  /\ pc[a] = "sb.take_release"
+  /\ LET mine == retTo[a] = "g_recheck"
+         b == IF mine THEN Me(a) ELSE w[a] IN
+       /\ release' = [release EXCEPT ![b] = FALSE]
+       /\ IF mine
+            THEN /\ UNCHANGED <<toWake, w>>
+                 /\ IF release[b] THEN Goto(a, "flag.fire.store") /\ retTo' = [retTo EXCEPT ![a] = "giveup"]
+                                  ELSE Goto(a, "giveup") /\ UNCHANGED retTo
+            ELSE /\ UNCHANGED retTo
+                 /\ IF release[b] THEN Goto(a, "flag.fire.store") /\ UNCHANGED <<toWake, w>>
+                                  ELSE PopOrReturn(a, "sb.take_release")
+  /\ UNCHANGED <<cnt, token, unparked, ip, cancelled, parked, res>> /\ UNCH_T /\ UNCH_G
+ParkEnter(a) ==
+  /\ pc[a] = "sb.park"
+  /\ IF token[Me(a)]
+       THEN /\ token' = [token EXCEPT ![Me(a)] = FALSE] /\ res' = [res EXCEPT ![a] = "Ok"]
+            /\ Goto(a, "sb.park.ret") /\ UNCHANGED <<parked, deadline, timerHost>>
+       ELSE IF cancelled[a]
+         THEN /\ res' = [res EXCEPT ![a] = "Canceled"] /\ Goto(a, "sb.park.ret")
+              /\ UNCHANGED <<token, parked, deadline, timerHost>>
+         ELSE /\ parked' = [parked EXCEPT ![a] = TRUE] /\ Goto(a, "parked")
+              /\ deadline' = [deadline EXCEPT ![a] = IF Op(a) = "twait" THEN now + Dur[a] ELSE 0]
+              /\ LeaveTimer(a) /\ UNCHANGED <<token, res>>
+  /\ UNCHANGED <<unparked, release, ip, w, retTo, cancelled, now>> /\ UNCH_S /\ UNCH_G
+ParkReturn(a) ==
+  /\ pc[a] = "sb.park.ret"
+  /\ IF res[a] = "Ok"
+       THEN /\ Goto(a, "next") /\ UNCHANGED <<token, retTo, cnt>>
+       ELSE /\ token' = [token EXCEPT ![Me(a)] = FALSE]
+            /\ retTo' = [retTo EXCEPT ![a] = "giveup"]
+            /\ IF GiveUpPath = "as_written" THEN Goto(a, "sb.is_unparked") /\ UNCHANGED cnt
+               ELSE Goto(a, "giveup") /\ cnt' = IF unparked[Me(a)] THEN cnt ELSE (IF cnt = BIG THEN -BIG ELSE cnt + 1)
+  /\ UNCHANGED <<toWake, unparked, release, ip, w, cancelled, parked, res>> /\ UNCH_T /\ UNCH_G
+IsUnparked(a) ==
+  /\ pc[a] = "sb.is_unparked"
+  /\ IF retTo[a] # "g_second"
+       THEN IF unparked[Me(a)] THEN Goto(a, "flag.fire.store") /\ retTo' = [retTo EXCEPT ![a] = "giveup"]
+                               ELSE Goto(a, "sb.set_release") /\ UNCHANGED retTo
+       ELSE IF unparked[Me(a)] THEN Goto(a, "sb.take_release") /\ retTo' = [retTo EXCEPT ![a] = "g_recheck"]
+                               ELSE Goto(a, "giveup") /\ UNCHANGED retTo
+  /\ UNCHANGED <<ip, w, cancelled, parked, res>> /\ UNCH_B /\ UNCH_S /\ UNCH_T /\ UNCH_G
+SetRelease(a) ==
+  /\ pc[a] = "sb.set_release"
+  /\ release' = [release EXCEPT ![Me(a)] = TRUE] /\ Goto(a, "sb.is_unparked")
+  /\ retTo' = [retTo EXCEPT ![a] = "g_second"]
+  /\ UNCHANGED <<token, unparked, ip, w, cancelled, parked, res>> /\ UNCH_S /\ UNCH_T /\ UNCH_G
+GiveUp(a) ==
+  /\ pc[a] = "giveup"
+  /\ Goto(a, IF res[a] = "Canceled" THEN "dead" ELSE "next")
+  /\ retTo' = [retTo EXCEPT ![a] = "next"]
+  /\ falseRet' = (falseRet \/ res[a] = "Timeout")
+  /\ IF res[a] = "Canceled" THEN LeaveTimer(a) ELSE UNCHANGED timerHost
+  /\ UNCHANGED <<ip, w, cancelled, parked, res, deadline, now, everFired>> /\ UNCH_B /\ UNCH_S
+NextOp(a) ==
+  /\ pc[a] = "next"
+  /\ IF ip[a] < Len(Prog[a])
+       THEN ip' = [ip EXCEPT ![a] = ip[a] + 1] /\ Goto(a, FirstPc(Prog[a][ip[a] + 1])) /\ UNCHANGED timerHost
+       ELSE UNCHANGED ip /\ Goto(a, "done") /\ LeaveTimer(a)
+  /\ res' = [res EXCEPT ![a] = "none"] /\ retTo' = [retTo EXCEPT ![a] = "next"]
+  /\ w' = [w EXCEPT ![a] = NoB]
+  /\ UNCHANGED <<cancelled, parked, deadline, now>> /\ UNCH_B /\ UNCH_S /\ UNCH_G
+TimedParked == {a \in Actors : pc[a] = "parked" /\ parked[a] /\ deadline[a] > 0}
+Tick ==
+  /\ TimedParked # {} /\ timerHost = "none"
+  /\ LET t == CHOOSE t \in {deadline[a] : a \in TimedParked} : \A a \in TimedParked : t <= deadline[a]
+         due == {a \in TimedParked : deadline[a] <= t} IN
+       /\ now' = t /\ timerHost' = CHOOSE a \in due : TRUE
+       /\ parked' = [a \in Actors |-> IF a \in due THEN FALSE ELSE parked[a]]
+       /\ res' = [a \in Actors |-> IF a \in due THEN "Timeout" ELSE res[a]]
+       /\ pc' = [a \in Actors |-> IF a \in due THEN "sb.park.ret" ELSE pc[a]]
+  /\ UNCHANGED <<ip, w, retTo, cancelled, deadline>> /\ UNCH_B /\ UNCH_S /\ UNCH_G
+Cancel(a) ==
+  /\ a \in Victims /\ ~cancelled[a] /\ pc[a] \notin {"done", "dead"}
+  /\ cancelled' = [cancelled EXCEPT ![a] = TRUE]
+  /\ IF pc[a] = "parked" /\ ~token[Me(a)]
+       THEN /\ parked' = [parked EXCEPT ![a] = FALSE] /\ res' = [res EXCEPT ![a] = "Canceled"]
+            /\ pc' = [pc EXCEPT ![a] = "sb.park.ret"]
+       ELSE UNCHANGED <<parked, res, pc>>
+  /\ UNCHANGED <<ip, w, retTo>> /\ UNCH_B /\ UNCH_S /\ UNCH_T /\ UNCH_G
+
+Step(a) == \/ WaitLoad(a) \/ WaitPush(a) \/ WaitDec(a) \/ FireStore(a) \/ Wakeup(a) \/ WakeUnpark(a)
+           \/ WakeSetUnparked(a) \/ TakeRelease(a) \/ ParkEnter(a) \/ ParkReturn(a) \/ IsUnparked(a) \/ SetRelease(a)
+Internal(a) == NextOp(a) \/ GiveUp(a)
+Obs(a) == IF pc[a] = "sb.park.ret"
+            THEN (CASE res[a] = "Ok" -> 0 [] res[a] = "Timeout" -> 1 [] OTHER -> 2) ELSE -1
+Finished(a) == pc[a] \in {"done", "dead"}
+\* an untimed wait() on a flag nobody fires blocks for ever by specification
+LegitParked(a) == pc[a] = "parked" /\ ~token[Me(a)] /\ deadline[a] = 0 /\ a \notin Victims /\ ~everFired
+Terminal == (\A a \in Actors : Finished(a) \/ LegitParked(a)) /\ UNCHANGED vars
+Next == (\E a \in Actors : Step(a) \/ Internal(a) \/ Cancel(a)) \/ Tick \/ Terminal
 Spec == Init /\ [][Next]_vars
-Latch == everFired => cnt > 0                                   \* never reads un-fired again
-\* once fired, nobody stays asleep: a parked waiter without a token has a waker in flight
-FiredWakesAll == (everFired /\ \E w \in Waiters : pc[w] = "wait.park" /\ ~token[w]) =>
-                    \E a \in Actors : pc[a] \in {"wake_all:done", "wake_all:wait.park", "wait.dec", "wait.push"}
-\* a wait that returns false was a timed one
-FalseOnlyOnTimeout == \A w \in Waiters : result[w] = "false" => w \in Timed
+-----------------------------------------------------------------------------
+\* one-way latch: once fire() has stored, the flag never reads un-fired again
+Latch == everFired => cnt > 0
+PendingFire == \E a \in Actors : pc[a] = "flag.fire.store"
+\* once fired nobody stays asleep (every current and future wait returns true): a parked waiter
+\* without a token implies a waker still at work
+FiredWakesAll == (everFired /\ \E a \in Actors : pc[a] = "parked" /\ ~token[Me(a)]) =>
+                   \E a \in Actors : pc[a] \in {"flag.wakeup", "sb.unpark", "sb.set_unparked", "sb.take_release",
+                                                "flag.fire.store", "flag.wait.dec", "sb.is_unparked", "sb.set_release"}
 =============================================================================
